@@ -10,7 +10,7 @@ for id in $IDS; do
     out=$(VERIF_ROOT=$ROOT VERIF_SEED=$s ./check $id $TIER 2>&1); rc=$?
     line=$(echo "$out" | grep -E "^$id (quick|thorough)" | tail -1 | cut -c1-160)
     echo "rc=$rc $line"
-    if [ $rc -ne 0 ]; then echo "$out" | grep -E "^(violation|INCONCLUSIVE|harness)" | cut -c1-300 | head -5; fi
+    if [ $rc -ne 0 ]; then echo "$out" > /tmp/sweep-fail-$id-$TIER-$s.log; echo "  (full output: /tmp/sweep-fail-$id-$TIER-$s.log)"; echo "$out" | grep -E "^(violation|INCONCLUSIVE|harness)" | cut -c1-300 | head -5; fi
   done
 done
 rm -rf $ROOT
